@@ -330,6 +330,21 @@ def _build_ofdm(case, tags):
         o = OFDM(fft, cp)
     else:
         o = OFDM(fft, cp, used)
+    if case.get("xseed", 0) % 3 == 0:
+        # a set_parameters call that must be REJECTED (ValueError) with other
+        # fft/cp sizes: the object stays exactly as configured
+        bad = [(2 * fft, cp, used_bad) for used_bad in (3, 2 * fft + 2)] + \
+            [(fft + 2, fft + 3, None)]
+        for a, b, c in bad:
+            try:
+                if c is None:
+                    o.set_parameters(a, b)
+                else:
+                    o.set_parameters(a, b, c)
+            except ValueError:
+                continue
+            raise Violation("invalid_accepted", "set_parameters%r accepted" %
+                            ((a, b, c),), tags)
     used_eff = fft if used is None else used
     got = (o.fft_size, o.cp_size, o.num_used_subcarriers)
     if got != (fft, cp, used_eff):
